@@ -704,6 +704,18 @@ class CallsMixin(ExecBase):
             return m(args, kwargs, st, node)
         return self.opaque_call(dotted, args, kwargs, st, node)
 
+    def x_re_sub(self, args, kwargs, st, node):
+        from . import stdlib_model as M
+        pat, rep, subj = [self.as_val(a, st, node) for a in args[:3]]
+        ps, rs = z3.simplify(pat.e), z3.simplify(rep.e)
+        if pat.tag == "s" and rep.tag == "s" and z3.is_string_value(ps) and z3.is_string_value(rs):
+            return M.re_sub(self, ps.as_string(), rs.as_string(), self.need(subj, "s", st, node), st)
+        return self.opaque_call("re.sub", args, kwargs, st, node)
+
+    def x_keyword_iskeyword(self, args, kwargs, st, node):
+        from . import stdlib_model as M
+        return M.iskeyword(self, self.need(self.as_val(args[0], st, node), "s", st, node), st)
+
     def x_os_environ_get(self, args, kwargs, st, node):
         """os.environ.get(name, default): the environment is an unknown but fixed map (uninterpreted env.set / env.val)."""
         k = self.need(self.as_val(args[0], st, node), "s", st, node)
@@ -987,6 +999,15 @@ class CallsMixin(ExecBase):
                 return VStr(e)
             f = z3.Function("py.join", StrS, ListS, StrS)
             return VStr(f(s, self.need(A[0], "l", st, node)))
+        if name == "strip" and len(A) == 1 and A[0].tag == "s" and z3.is_string_value(z3.simplify(A[0].e)):
+            from . import stdlib_model as M
+            return M.strip_chars(self, s, z3.simplify(A[0].e).as_string(), st)
+        if name == "lower" and not A:
+            from . import stdlib_model as M
+            return M.lower(self, s, st)
+        if name == "isdigit":
+            from . import stdlib_model as M
+            return M.isdigit(self, s, st)
         if name in ("lower", "upper", "strip", "lstrip", "rstrip", "capitalize", "title", "casefold"):
             if A:
                 f = z3.Function("py." + name + "2", StrS, StrS, StrS)
